@@ -301,6 +301,8 @@ check('C16',
       'baseband classes. The model is evaluated (vm_compute) on every attempted construction and compared with the constructor; WF itself '
       'is evaluated on the observed attributes of every signal the run sees, including those returned by library operations; copies '
       '(like, pickle, cloudpickle, dask helpers) are compared attribute by attribute.',
+      'The validation statements the constructor model transcribes (Signal.__init__ and the validating setters) are pinned as syntax trees '
+      're-read from core.py on every run by T16, raise messages ignored (C16_generated_statements). '
       'Trusted: Coq kernel; translator T2; numpy can_cast(safe) as transcribed (validated); data arguments are array objects.',
       'machine-checked proof in Coq over tables regenerated from source (T2) + correspondence run (vm_compute) + contract monitor',
       'DESIGN.md 5 C16')
